@@ -228,7 +228,13 @@ def run_one(h, slot, tier_cap, mem_kb):
                      timeout=tmo + 900, cwd=HARNESS_DIR)
     first = parse_kani(out).get(h["qual"])
     if first is not None and first["status"] == "FAILED" and first["failed"]:
-        text += f"$ {' '.join(cmd)}\n[rc={rc} {dt:.1f}s] FAILED: {first['failed'][:5]} -> re-running with concrete playback\n"
+        fail_blocks = []
+        ls = out.splitlines()
+        for i, ln in enumerate(ls):
+            if "Status: FAILURE" in ln:
+                fail_blocks.append("\n".join(ls[max(0, i - 1):i + 3]))
+        text += (f"$ {' '.join(cmd)}\n[rc={rc} {dt:.1f}s] FAILED: {first['failed'][:5]}\n"
+                 + "\n".join(fail_blocks[:12]) + "\n-> re-running with concrete playback\n")
         cmd = build_cmd(True)
         rc, out, dt2 = sh(["bash", "-c", f"ulimit -v {mem_kb}; exec \"$@\"", "x"] + cmd,
                           timeout=tmo + 900, cwd=HARNESS_DIR)
